@@ -6,9 +6,10 @@ Python list of lists → `List (List Int)`; `b : Optional[list]` → `Option (Li
 `gmpy2.mpq` → `PyQ` (normalised numerator/denominator); every `raise` / failing index →
 `Except PyErr`.  The in-place mutation of `a` and `b` is modelled by returning the new lists.
 
-Defect D7: the zero-pivot move of `echelon_form` is `a.insert(nrows, a.pop(i))` on the pinned
-tree and `a.insert(nrows - 1, a.pop(i))` in fixes/D7-solve-right.diff.  Both are modelled
-(`LaVariant.pinned` / `.repaired`); the theorems are about `.repaired`.
+Defect D7 (fixed in /repo by 275bdf4): the zero-pivot move of `echelon_form` WAS
+`a.insert(nrows, a.pop(i))` before the fix and is `a.insert(nrows - 1, a.pop(i))` at /repo HEAD
+(= fixes/D7-solve-right.diff).  Both are modelled (`LaVariant.pinned` = pre-fix, historical;
+`.repaired` = SHIPPED); the theorems are about `.repaired`.
 
 Assumption shared with the harness: the rows of `a` are distinct list objects (no aliasing).
 No Mathlib.
@@ -18,8 +19,8 @@ namespace Paranoid.LA
 
 /-- which zero-pivot row move `echelon_form` performs (defect D7). -/
 inductive LaVariant
-  | pinned    -- `a.insert(nrows, a.pop(i))`      (tree as pinned)
-  | repaired  -- `a.insert(nrows - 1, a.pop(i))`  (fixes/D7-solve-right.diff)
+  | pinned    -- `a.insert(nrows, a.pop(i))`      (PRE-FIX tree, historical; before 275bdf4)
+  | repaired  -- `a.insert(nrows - 1, a.pop(i))`  (SHIPPED: /repo HEAD since 275bdf4)
   deriving DecidableEq, Repr
 
 /-- decidable equality on results (for `decide +kernel` on closed model evaluations). -/
